@@ -197,7 +197,7 @@ fn rawreq(u: &mut Unstructured, n: u8) -> Result<RawReq> {
             BodyForm::Data { spec: bytes_spec(u, 1500)?, sizes }
         }
     };
-    Ok(RawReq { route, method, client, cid: idform(u, true)?, idref: idref(u, client, n)?, pid: idform(u, false)?, ct, body, announce_len: bool::arbitrary(u)?, http10: u.int_in_range(0..=6u8)? == 0, extra: if u.int_in_range(0..=2u8)? == 0 { u.int_in_range(1..=15u8)? } else { 0 }, spell: if u.int_in_range(0..=5u8)? == 0 { u.int_in_range(1..=39u8)? } else { 0 } })
+    Ok(RawReq { route, method, client, cid: idform(u, true)?, idref: idref(u, client, n)?, pid: idform(u, false)?, ct, body, announce_len: bool::arbitrary(u)?, http10: u.int_in_range(0..=6u8)? == 0, extra: if u.int_in_range(0..=2u8)? == 0 { u.int_in_range(1..=21u8)? } else { 0 }, spell: if u.int_in_range(0..=5u8)? == 0 { u.int_in_range(1..=39u8)? } else { 0 } })
 }
 
 /// libFuzzer target `http`: bytes -> prefix history + request-grammar sequence -> in-process service.
